@@ -102,6 +102,21 @@ C19-run-inline-only-test-prefix-files C19
 C20-black-mode-pins-target-version C20
 C20-nearest-pyproject-without-black-section C20
 C20-removals-skip-formatting C20
+C01-in-snapshot-hash-dedupe C01,C05
+C03-import-inserted-after-first-line-of-last-import C03
+C04-xfail-only-own-markers C04
+C06-contains-already-recorded-shortcut C06
+C07-missing-counted-once-when-recorded C07
+C08-complex-paren-normalisation-only-for-positive-imaginary C08
+C09-collection-insert-position-counts-used-values C09,C05
+C10-sequence-items-maps-nodes-by-length C10
+C11-align-size-guard-before-suffix-strip C11
+C12-rstrip-lines-of-container-fragment C12,C01
+C13-lookup-prefers-persisted-over-pending-new C13
+C15-persist-skips-complete-hash-names C13
+C16-partial-order-sorted-check-by-inversion C16
+C17-uncopyable-value-falls-back-to-live-object C17
+C20-shared-default-black-mode-leaks-between-projects C20
 LIST
 # a seeded change that leaves stray temporary files behind (C18 round 3) writes them to the default temp dir
 find /tmp -maxdepth 1 -type f -name 'tmp*.py' -delete 2>/dev/null
